@@ -331,19 +331,22 @@ impl<T: Qcow2IoOps> Qcow2Dev<T> {
             return Ok(entry);
         }
 
-        self.add_rb_slice(
-            rt_e,
-            key,
-            cls.rb_slice_off_in_table(info),
-            RefBlock::new(info.refcount_order, 1 << info.rb_slice_bits, None),
-        )
-        .await?;
+        // the loaded slice may be evicted by someone else before it is
+        // looked up, so retry
+        for _ in 0..Self::SLICE_LOAD_RETRIES {
+            self.add_rb_slice(
+                rt_e,
+                key,
+                cls.rb_slice_off_in_table(info),
+                RefBlock::new(info.refcount_order, 1 << info.rb_slice_bits, None),
+            )
+            .await?;
 
-        if let Some(entry) = rb_cache.get(key) {
-            Ok(entry)
-        } else {
-            Err("Fail to load refcount block".into())
+            if let Some(entry) = rb_cache.get(key) {
+                return Ok(entry);
+            }
         }
+        Err("Fail to load refcount block".into())
     }
 
     /// make sure reftable entry points to valid refcount block
